@@ -72,7 +72,7 @@ theorem eval_log_shape (w : World) (o f : Nat) (a : Args) (m : Mock) (hm : w.moc
     ∃ e x, (find (w.expMatches a) w.expOrder (m.active f)).1 = some e ∧ w.exps e = some x ∧
       (w.callFn o f a).2 =
         (examined (w.expMatches a) w.expOrder (m.active f)).flatMap (w.matchLog a) ++
-          ([Ev.ok w.reporter e] ++ (actionEvents e x a).1 ++ w.traceEv e a (actionEvents e x a).2 ++
+          ([Ev.ok w.okReporter e] ++ (actionEvents e x a).1 ++ w.traceEv e a (actionEvents e x a).2 ++
             [.result (actionEvents e x a).2]) := by
   cases callFn_cases w o f a m hm hex with
   | noMatch hfind heq =>
